@@ -21,6 +21,13 @@ its block or `drop(v)`/consuming call; temporary: to the end of the statement; t
 end of the construct).  Every real path of the call is obtained from it by deleting balanced
 segments (Locks.Thin), which preserves Ordered (LocksProofs.Ordered_thin).
 
+Besides the flat footprints (all_footprints) it emits STRUCTURED programs (all_programs : list (string * cprog),
+ticker_prog): the scanner drops structure markers into the event stream (branch / alternative / loop / exit),
+build_tree() turns them into a tree, attach() resolves early exits by cutting the continuation (the statements
+after an `if`/`match` go only into the alternatives that do not leave; an exit keeps the list of guards and
+owned values that die on the way out), inline_tree() inlines callees; tree_linear(program) must equal the flat
+footprint (checked here and again in Coq: C08_tables_agree).
+
 Honesty: anything the translator does not understand is an ERROR (exit 2, nothing written):
 an unknown method on a tracked type, a lock expression it cannot attribute, a lock call site in
 the four files that no footprint covers, a call cycle, an unbalanced footprint.
@@ -232,6 +239,8 @@ class Scanner:
         self.toks = lex(fn.body, fn.body_off)
         self.scopes = [{}]            # name -> Var, one dict per brace depth (+ virtual stmt scopes)
         self.held = []                # Vars/temps currently holding a resource, in acquisition order
+        self.owned = []               # guards and droppable values (owned Ticker, upgraded Arc), creation order
+        self.alt_stack = []           # open alternatives: liveness snapshot (see mark)
         self.cb = set(re.findall(r"\b(\w+)\s*:\s*(?:impl\s+FnOnce|F\b)", fn.params))
         for pm in re.finditer(r"(\w+)\s*:\s*&?\s*(?:mut\s+)?ProgressBar\b", fn.params):
             self.scopes[0][pm.group(1)] = Var("ProgressBar")
@@ -251,6 +260,7 @@ class Scanner:
         self.ev.append(("acq", res, self.where(off) + note))
         g = Var("guard", res, True)
         self.held.append(g)
+        self.owned.append(g)
         return g
 
     def release(self, g):
@@ -270,28 +280,74 @@ class Scanner:
             self.ev.append(("call", ("Ticker", "drop:drop"), self.where(off)))
         elif v.typ == "ArcBar":
             v.live = False
-            self.ev.append(("droparc", None, self.where(off)))
-            self.ev.append(("call", ("BarState", "drop:drop"), self.where(off)))
+            self.ev.extend(self.arc_drop(off))
+
+    def arc_drop(self, off):
+        """drop of an Arc<Mutex<BarState>>: Drop for BarState runs only if it was the last one"""
+        return [("droparc", None, self.where(off)), ("M", "br_open"), ("M", "alt_open"),
+                ("call", ("BarState", "drop:drop"), self.where(off)), ("M", "alt_close"),
+                ("M", "alt_open"), ("M", "alt_close"), ("M", "br_close")]
 
     def pop_scope(self, off):
         sc = self.scopes.pop()
         for v in reversed(list(sc.values())):
             self.drop_var(v, off)
 
+    # -- structure markers (consumed by build_tree; not part of the flat footprint)
+    def mark(self, kind, *args):
+        """structure marker.  The scan is one pass, so the liveness of guards must be the same on every way
+        through a branch: an alternative that ends in an early exit gets the state restored behind it (the
+        fall-through path did not run it); any other alternative that releases / consumes something created
+        outside it is an error (the translator cannot follow two different lock states)."""
+        if kind == "alt_open":
+            self.alt_stack.append({"snap": [(v, v.live) for v in self.owned], "held": list(self.held), "exit": False})
+        elif kind == "exit" and self.alt_stack:
+            self.alt_stack[-1]["exit"] = True
+        elif kind == "alt_close":
+            a = self.alt_stack.pop()
+            changed = [v for v, live in a["snap"] if v.live != live]
+            if a["exit"]:
+                for v, live in a["snap"]:
+                    v.live = live
+                self.held = [g for g in a["held"]]
+            elif changed:
+                die("%s::%s: a guard or owned value created outside a branch is released in only one of its "
+                    "alternatives (and the alternative does not leave the function/loop)" % (self.fn.typ, self.fn.name))
+            elif self.alt_stack and a["exit"]:
+                self.alt_stack[-1]["exit"] = True
+        self.ev.append(("M", kind) + args)
+
+    def cleanup_events(self, mark, off):
+        """what dies when control leaves through return / break / continue: everything created since `mark`"""
+        out = []
+        for v in reversed(self.owned[mark:]):
+            if not v.live:
+                continue
+            if v.res and v.owned:
+                out.append(("rel", v.res, ""))
+            elif v.typ == "TickerOwned":
+                out.append(("call", ("Ticker", "drop:drop"), self.where(off)))
+            elif v.typ == "ArcBar":
+                out.extend(self.arc_drop(off))
+        return out
+
     # -- the scan
     def run(self):
         toks = self.toks
         n = len(toks)
-        # statement frames: dicts with kind, temps, depth (brace depth at which the stmt lives)
-        stmts = []
-        braces = []     # for every open '{': ('block'|'group', stmt index owning it or None)
-        parens = []     # for every open '(': call info or None, saved chain
+        stmts = []      # open statements (dicts)
+        braces = []     # for every open '{': {"stmts": open statements before it, "matchbody": bool}
+        parens = []     # for every open '(': {"call": call info or None, "stmt": open statements}
+        closures = []   # open closure bodies
+        loop_marks = []  # len(self.owned) at the entry of every enclosing loop body
         chain = None    # (type, guardVar-or-None, startVarName-or-None)
         last_chain_end = -1
         last_chain = None
         i = 0
+        CONTROL = ("if", "match", "while", "for", "loop")
+        EXITS = ("return", "break", "continue")
 
-        def new_stmt(i):
+        def new_stmt(i, nested=False):
             kind = "expr"
             t = toks[i][0]
             t1 = toks[i + 1][0] if i + 1 < n else ""
@@ -306,102 +362,268 @@ class Scanner:
             elif t in ("for", "loop"):
                 kind = "loop"
             st = {"kind": kind, "temps": [], "depth": len(braces), "start": i, "name": None, "idx": len(stmts),
-                  "scrut": None, "init_kw": None, "cond_open": True, "pat": None}
+                  "scrut": None, "init_kw": None, "cond_open": True, "pat": None,
+                  "loop": t in ("while", "for", "loop"), "first": t, "exit": t if t in EXITS else None,
+                  "arm": bool(braces) and braces[-1]["matchbody"] and len(stmts) == braces[-1]["stmts"],
+                  "nested": nested, "in_block": False, "else_pending": False, "br_opened": False,
+                  "saw_else": False, "loop_br": False, "has_q": False, "ev_start": len(self.ev)}
+            if st["exit"] and t1 in CONTROL:
+                die("%s: `%s %s ...` is not supported by the translator" % (self.where(toks[i][1]), t, t1))
             if kind == "let":
                 j = i + 1
                 if toks[j][0] == "mut":
                     j += 1
                 st["name"] = toks[j][0]
-                # initializer keyword
                 k = j
                 while toks[k][0] != "=" and toks[k][0] != ";":
                     k += 1
-                if toks[k][0] == "=" and toks[k + 1][0] in ("match", "if"):
+                if toks[k][0] == "=" and toks[k + 1][0] in CONTROL:
                     st["init_kw"] = toks[k + 1][0]
+                    if st["init_kw"] not in ("match", "if"):
+                        die("%s: `let .. = %s ..` is not supported by the translator"
+                            % (self.where(toks[i][1]), st["init_kw"]))
             if kind == "iflet":
-                # pattern text up to '='
                 k = i + 2
                 pat = []
                 while toks[k][0] != "=":
                     pat.append(toks[k][0])
                     k += 1
                 st["pat"] = pat
+            if st["arm"]:
+                self.mark("alt_open")
+            if st["loop"]:
+                self.mark("loop_open")
             self.scopes.append({})      # virtual scope of the statement (pattern bindings)
             stmts.append(st)
             return st
 
         def end_stmt(off):
             st = stmts.pop()
+            if st["br_opened"] and not st["loop"]:
+                if not st["saw_else"]:
+                    self.mark("alt_open")
+                    self.mark("alt_close")
+                self.mark("br_close")
             for g in reversed(st["temps"]):
                 self.release(g)
             self.pop_scope(off)
+            if st["has_q"]:
+                if any(e[0] != "M" for e in self.ev[st["ev_start"]:]):
+                    die("%s: `?` in a statement with lock events is not supported" % self.where(off))
+                self.mark("br_open")
+                self.mark("alt_open")
+                self.mark("exit", "return", self.cleanup_events(0, off))
+                self.mark("alt_close")
+                self.mark("alt_open")
+                self.mark("alt_close")
+                self.mark("br_close")
+            if st["exit"]:
+                if st["exit"] == "return":
+                    if loop_marks:
+                        die("%s: `return` inside a loop is not supported" % self.where(off))
+                    m = 0
+                else:
+                    if not loop_marks:
+                        die("%s: `%s` outside a loop" % (self.where(off), st["exit"]))
+                    m = loop_marks[-1]
+                self.mark("exit", st["exit"], self.cleanup_events(m, off))
+            if st["loop"]:
+                if st["loop_br"]:
+                    self.mark("alt_close")
+                    self.mark("br_close")
+                self.mark("loop_close")
+                if st.get("mark_pushed"):
+                    loop_marks.pop()
+            if st["arm"]:
+                self.mark("alt_close")
+
+        def end_upto_arm(off):
+            """a `,` (or the end of an arm block) ends nested control statements and the arm itself"""
+            while stmts and stmts[-1]["depth"] == len(braces):
+                was = stmts[-1]
+                end_stmt(off)
+                if not was["nested"]:
+                    break
 
         def release_cond_temps(st):
             for g in reversed(st["temps"]):
                 self.release(g)
             st["temps"] = []
 
+        def close_closure(off):
+            c = closures.pop()
+            has_ev = any(e[0] != "M" for e in self.ev[c["ev_start"]:])
+            if has_ev and (not c["call"] or c["call"][1] != "map" or c["iter"]):
+                die("%s: closure with lock events passed to `%s` (only Option::map is understood)"
+                    % (self.where(off), c["call"][1] if c["call"] else "?"))
+            self.mark("alt_close")
+            self.mark("alt_open")
+            self.mark("alt_close")
+            self.mark("br_close")
+
         need_stmt = True
+        nested_next = False
         while i < n:
             t, off = toks[i]
             nxt = toks[i + 1][0] if i + 1 < n else ""
+            prev = toks[i - 1][0] if i > 0 else ""
             if need_stmt and t not in ("}", ";"):
-                new_stmt(i)
+                new_stmt(i, nested_next)
+                nested_next = False
                 need_stmt = False
+            elif t == "if" and prev == "=" and stmts and stmts[-1]["kind"] == "let" and stmts[-1]["init_kw"] == "if":
+                new_stmt(i, True)           # `let x = if c {a} else {b};`: the `if` is a nested statement
+            elif t in CONTROL and not (t == "match" and prev == "=" and stmts and stmts[-1]["kind"] == "let") \
+                    and not (t == "if" and prev == "else"):
+                die("%s: `%s` in expression position is not supported by the translator" % (self.where(off), t))
+            elif t in EXITS and not (stmts and stmts[-1]["start"] == i):
+                if not (prev == "=>" and stmts and stmts[-1]["arm"]):
+                    die("%s: `%s` in expression position is not supported by the translator" % (self.where(off), t))
             st = stmts[-1] if stmts else None
+
+            # ---- closures: `|args| body` / `move || body` in argument position
+            if t in ("|", "||") and prev in ("(", ",", "move"):
+                j = i
+                if t == "|":
+                    j = i + 1
+                    while toks[j][0] != "|":
+                        j += 1
+                call = parens[-1]["call"] if parens else None
+                itr = any(toks[k][0] in ("iter", "into_iter", "iter_mut", "values", "values_mut", "keys")
+                          for k in range(st["start"] if st else 0, i))
+                closures.append({"paren_level": len(parens), "brace_level": len(braces),
+                                 "braced": toks[j + 1][0] == "{", "call": call, "iter": itr, "ev_start": len(self.ev)})
+                self.mark("br_open")
+                self.mark("alt_open")
+                chain = None
+                i = j + 1
+                continue
 
             # ---- structure
             if t == "{":
-                if st and st["kind"] == "if" and st["cond_open"] and st["depth"] == len(braces):
-                    release_cond_temps(st)          # temporaries of an `if`/`while` condition
+                at_depth = st is not None and st["depth"] == len(braces)
+                matchbody = False
+                bind_now = False
+                if at_depth and st["kind"] == "iflet" and st["cond_open"] and not st.get("pat_done"):
+                    at_depth = False        # a brace of the `if let` pattern, not the block
+                if at_depth and st["loop"] and not st["in_block"] and not st.get("mark_pushed") \
+                        and (st["first"] != "while" or st["cond_open"]):
+                    # the body of a loop
+                    if st["kind"] == "if":
+                        release_cond_temps(st)
+                    elif st["temps"]:
+                        die("%s: loop condition holding a lock guard is not supported" % self.where(off))
                     st["cond_open"] = False
-                if st and st["kind"] == "iflet" and st["cond_open"] and st["depth"] == len(braces):
+                    loop_marks.append(len(self.owned))
+                    st["mark_pushed"] = True
+                    if st["first"] == "while":
+                        self.mark("br_open")
+                        self.mark("alt_open")
+                        self.mark("exit", "loopcond", [])
+                        self.mark("alt_close")
+                        self.mark("alt_open")
+                        st["loop_br"] = True
+                    bind_now = st["kind"] == "iflet"
+                    st["in_block"] = True
+                elif at_depth and st["kind"] in ("if", "iflet") and not st["loop"] and st["cond_open"]:
+                    if st["kind"] == "if":
+                        release_cond_temps(st)          # temporaries of an `if` condition
+                    else:
+                        bind_now = True
                     st["cond_open"] = False
-                    self.bind_pattern(st, last_chain, off)
-                if st and (st["kind"] == "match" or st["init_kw"] == "match") and st["scrut"] is None \
-                        and st["depth"] == len(braces):
+                    st["br_opened"] = True
+                    st["in_block"] = True
+                    self.mark("br_open")
+                    self.mark("alt_open")
+                elif at_depth and st["else_pending"]:
+                    st["else_pending"] = False
+                    st["in_block"] = True
+                    self.mark("alt_open")
+                elif at_depth and (st["kind"] == "match" or st["init_kw"] == "match") and st["scrut"] is None:
                     st["scrut"] = last_chain or ("Untracked", None, None)
-                braces.append(len(stmts))
+                    matchbody = True
+                    self.mark("br_open")
+                braces.append({"stmts": len(stmts), "matchbody": matchbody})
                 self.scopes.append({})
+                if bind_now:
+                    # the pattern variables of `if let` / `while let` live in the body block
+                    self.bind_pattern(st, last_chain, off)
                 chain = None
                 need_stmt = True
                 i += 1
                 continue
             if t == "}":
-                # statements still open inside this group end here (tail expression)
-                depth_stmts = braces.pop()
-                while len(stmts) > depth_stmts:
+                b = braces.pop()
+                while len(stmts) > b["stmts"]:
                     end_stmt(off)
                 self.pop_scope(off)
+                if b["matchbody"]:
+                    self.mark("br_close")
                 chain = None
                 need_stmt = False
+                if closures and closures[-1]["braced"] and closures[-1]["brace_level"] == len(braces):
+                    close_closure(off)
                 st = stmts[-1] if stmts else None
-                if st and st["depth"] == len(braces) and not parens_open_in_stmt(parens, st) \
+                if st and st["depth"] == len(braces) and st["in_block"]:
+                    st["in_block"] = False
+                    if not st["loop"]:
+                        self.mark("alt_close")
+                        if nxt == "else":
+                            st["saw_else"] = True
+                if st and st["depth"] == len(braces) and st["nested"] and nxt == ";" \
+                        and not parens_open_in_stmt(parens, st):
+                    end_stmt(off)           # the nested `if` of a let initializer; the let goes on to `;`
+                elif st and st["depth"] == len(braces) and not parens_open_in_stmt(parens, st) \
                         and st["kind"] in ("if", "iflet", "match", "loop", "expr") \
                         and nxt not in ("else", ".", "?", ";", ")", ",", "=>", "=", "|"):
-                    end_stmt(off)
+                    if st["nested"] or st["arm"]:
+                        end_upto_arm(off)
+                    else:
+                        end_stmt(off)
                     need_stmt = True
                 if not stmts and not braces:
                     need_stmt = True
                 i += 1
                 continue
             if t == "else":
-                if st and st["kind"] == "if" and nxt == "if":
-                    st["cond_open"] = True
-                    i += 2
-                else:
-                    i += 1
+                if nxt == "if":
+                    die("%s: `else if` is not supported by the translator" % self.where(off))
+                if st:
+                    st["else_pending"] = True
                 chain = None
+                i += 1
                 continue
+            if t == "=>" and st and st["arm"] and st["depth"] == len(braces):
+                if nxt in EXITS:
+                    st["exit"] = nxt
+                elif nxt in CONTROL:
+                    need_stmt = True
+                    nested_next = True
+                chain = None
+                i += 1
+                continue
+            if t == "=" and st and st["kind"] == "iflet" and st["depth"] == len(braces):
+                st["pat_done"] = True
             if t == "=" and st and toks[st["start"]][0] == "*" and nxt == "true" \
                     and any(g.live and g.res == "CStop" for g in st["temps"]):
                 self.ev.append(("setstop", None, self.where(off)))
+            if t == "," and closures and not closures[-1]["braced"] \
+                    and closures[-1]["paren_level"] == len(parens) and closures[-1]["brace_level"] == len(braces):
+                close_closure(off)
             if t == ";" or (t == "," and st and st["depth"] == len(braces) and not parens
-                            and braces and st["kind"] == "expr"):
+                            and braces and st["kind"] != "let"):
                 if st and st["depth"] == len(braces) and not parens_open_in_stmt(parens, st):
                     if t == ";" and st["kind"] == "let":
                         self.bind_let(st, last_chain if last_chain_end == i - 1 else None, off)
-                    end_stmt(off)
+                    elif t == ";" and last_chain_end == i - 1 and last_chain and last_chain[1] is not None \
+                            and last_chain[1] in st["temps"] \
+                            and any(toks[k][0] == "=" for k in range(st["start"], i)) \
+                            and toks[st["start"]][0] != "*":
+                        die("%s: a lock guard is assigned to an existing variable (not supported)" % self.where(off))
+                    if t == ",":
+                        end_upto_arm(off)
+                    else:
+                        end_stmt(off)
                     need_stmt = True
                 chain = None
                 i += 1
@@ -412,6 +634,9 @@ class Scanner:
                 i += 1
                 continue
             if t == ")":
+                if closures and not closures[-1]["braced"] and closures[-1]["paren_level"] == len(parens) \
+                        and closures[-1]["brace_level"] == len(braces):
+                    close_closure(off)
                 p = parens.pop()
                 chain = None
                 if p["call"]:
@@ -421,7 +646,6 @@ class Scanner:
                 continue
 
             # ---- chains
-            prev = toks[i - 1][0] if i > 0 else ""
             if t == "." and re.match(r"[A-Za-z_0-9]", nxt or " "):
                 name = nxt
                 after = toks[i + 2][0] if i + 2 < n else ""
@@ -437,6 +661,8 @@ class Scanner:
                 i += 2
                 continue
             if t == "?":
+                if st:
+                    st["has_q"] = True
                 last_chain_end = i
                 i += 1
                 continue
@@ -491,8 +717,8 @@ class Scanner:
             end_stmt(self.fn.body_off + len(self.fn.body))
         while self.scopes:
             self.pop_scope(self.fn.body_off + len(self.fn.body))
-        if self.held:
-            die("%s::%s: guards still held at the end of the body" % (self.fn.typ, self.fn.name))
+        if self.held or closures:
+            die("%s::%s: guards or closures still open at the end of the body" % (self.fn.typ, self.fn.name))
         return self.ev
 
     # -- bindings
@@ -521,16 +747,30 @@ class Scanner:
         sc = self.scopes[-1]
         if ty == "OptTickerOwned":
             sc[name] = Var("TickerOwned")
+            self.owned.append(sc[name])
         elif ty == "OptTickerRef":
             sc[name] = Var("Ticker")
         elif ty == "OptArcBar":
             sc[name] = Var("ArcBar")
+            self.owned.append(sc[name])
         elif ty == "OptRemote":
             sc[name] = Var("MultiLock")
         elif ty == "Drawable" and g is not None and g in st["temps"]:
             st["temps"].remove(g)
             g.typ = "Drawable"
             sc[name] = g
+            # `if let Some(d) = target.drawable(..) { .. }`: the guard exists only on the Some path, so the
+            # acquisition belongs to that alternative (it is the last event before the branch markers)
+            k = len(self.ev) - 1
+            while k >= 0 and self.ev[k][0] == "M":
+                k -= 1
+            if k < 0 or self.ev[k][0] != "acq" or self.ev[k][1] != g.res:
+                die("%s: cannot attribute the guard of an `if let Some(..)` scrutinee" % self.where(off))
+            self.ev.append(self.ev.pop(k))
+            if self.alt_stack:          # ... so it counts as created inside that alternative
+                a = self.alt_stack[-1]
+                a["snap"] = [(v, live) for v, live in a["snap"] if v is not g]
+                a["held"] = [x for x in a["held"] if x is not g]
         elif ty == "LeafDrawable":
             sc[name] = Var("LeafDrawable")
 
@@ -719,6 +959,8 @@ def flatten(key, fntab, stack, memo):
         die("call to unknown function %s::%s" % key)
     out = []
     for ev in fn.events:
+        if ev[0] == "M":
+            continue
         if ev[0] == "call":
             if ev[1] in RET_GUARD_IMPL:
                 die("guard constructor %s::%s reached as a plain call" % ev[1])
@@ -755,6 +997,210 @@ def check_balanced(name, evs):
             held.remove(e[1])
     if held:
         die("%s: unbalanced footprint, still holds %s" % (name, held))
+
+
+
+# ------------------------------------------------------------------ structured programs
+# nodes: ("act", ev) | ("call", key) | ("seq", [nodes]) | ("br", [[nodes], ...]) | ("loop", [nodes])
+#        | ("exit", kind, [nodes])      kind: return | break | continue | loopcond
+def ev_node(e):
+    return ("call", e[1]) if e[0] == "call" else ("act", e)
+
+
+def build_tree(events, what):
+    pos = [0]
+
+    def is_m(k):
+        return pos[0] < len(events) and events[pos[0]][0] == "M" and events[pos[0]][1] == k
+
+    def parse_seq(stops):
+        items = []
+        while pos[0] < len(events):
+            e = events[pos[0]]
+            if e[0] != "M":
+                items.append(ev_node(e))
+                pos[0] += 1
+                continue
+            k = e[1]
+            if k in stops:
+                return items
+            if k == "br_open":
+                pos[0] += 1
+                alts = []
+                while is_m("alt_open"):
+                    pos[0] += 1
+                    alt = parse_seq(("alt_close",))
+                    if not is_m("alt_close"):
+                        die("%s: structure markers do not nest (alt)" % what)
+                    pos[0] += 1
+                    alts.append(alt)
+                if not is_m("br_close"):
+                    die("%s: structure markers do not nest (branch): %r" % (what, events[pos[0]:pos[0] + 3]))
+                pos[0] += 1
+                items.append(("br", alts))
+            elif k == "loop_open":
+                pos[0] += 1
+                body = parse_seq(("loop_close",))
+                if not is_m("loop_close"):
+                    die("%s: structure markers do not nest (loop)" % what)
+                pos[0] += 1
+                items.append(("loop", body))
+            elif k == "exit":
+                items.append(("exit", e[2], build_tree(e[3], what + " (exit clean-up)")))
+                pos[0] += 1
+            else:
+                die("%s: unexpected structure marker %s" % (what, k))
+        return items
+
+    items = parse_seq(())
+    if pos[0] != len(events):
+        die("%s: structure markers do not nest (top)" % what)
+    return items
+
+
+def open_exit(nodes, in_loop=False):
+    """does control possibly leave this node list through an exit that is not absorbed by a loop inside it"""
+    for t in nodes:
+        if t[0] == "exit":
+            return True
+        if t[0] == "br" and any(open_exit(a) for a in t[1]):
+            return True
+        if t[0] == "loop":
+            for x in walk(t[1]):
+                if x[0] == "exit" and x[1] == "return":
+                    die("`return` inside a loop is not supported")
+    return False
+
+
+def walk(nodes):
+    for t in nodes:
+        yield t
+        if t[0] == "br":
+            for a in t[1]:
+                yield from walk(a)
+        elif t[0] == "loop":
+            yield from walk(t[1])
+
+
+def attach_seq(items, rest):
+    """items, then (on the paths that do not leave early) rest"""
+    out = rest
+    for it in reversed(items):
+        out = attach(it, out)
+    return out
+
+
+def attach(t, rest):
+    if t[0] in ("act", "call"):
+        return [t] + rest
+    if t[0] == "exit":
+        return [t]                      # the continuation is cut
+    if t[0] == "br":
+        if any(open_exit(a) for a in t[1]):
+            return [("br", [attach_seq(a, rest) for a in t[1]])]
+        return [("br", [attach_seq(a, []) for a in t[1]])] + rest
+    if t[0] == "loop":
+        return [("loop", attach_seq(t[1], []))] + rest
+    die("attach: unknown node %r" % (t[0],))
+
+
+def simplify(nodes):
+    """only applied after the early exits have been resolved (attach): an exit is then just its clean-up,
+    so empty exits, empty alternatives that repeat, branches without any action and empty loops disappear"""
+    out = []
+    for t in nodes:
+        if t[0] == "br":
+            alts = []
+            for a in (simplify(a) for a in t[1]):
+                if a not in alts:
+                    alts.append(a)
+            if alts == [[]] or not alts:
+                continue
+            if len(alts) == 1:
+                out.extend(alts[0])
+            else:
+                out.append(("br", alts))
+        elif t[0] == "loop":
+            body = simplify(t[1])
+            if body:
+                out.append(("loop", body))
+        elif t[0] == "exit":
+            c = simplify(t[2])
+            if c:
+                out.append(("exit", t[1], c))
+        elif t[0] == "seq":
+            out.extend(simplify(t[1]))
+        else:
+            out.append(t)
+    return out
+
+
+def inline_tree(key, trees, stack, memo):
+    if key in memo:
+        return memo[key]
+    if key in stack:
+        die("call cycle: " + " -> ".join("%s::%s" % k for k in stack + [key]))
+    if key not in trees:
+        die("call to unknown function %s::%s" % key)
+
+    def go(nodes):
+        out = []
+        for t in nodes:
+            if t[0] == "call":
+                if t[1] in RET_GUARD_IMPL:
+                    die("guard constructor %s::%s reached as a plain call" % t[1])
+                sub = inline_tree(t[1], trees, stack + [key], memo)
+                if sub:
+                    out.append(("seq", sub))
+            elif t[0] == "br":
+                out.append(("br", [go(a) for a in t[1]]))
+            elif t[0] == "loop":
+                out.append(("loop", go(t[1])))
+            elif t[0] == "exit":
+                out.append(("exit", t[1], go(t[2])))
+            else:
+                out.append(t)
+        return out
+
+    memo[key] = simplify(go(trees[key]))
+    return memo[key]
+
+
+def tree_linear(nodes):
+    """textual order: every alternative once, every loop body once, exits (clean-up of an early exit) skipped"""
+    out = []
+    for t in nodes:
+        if t[0] == "act":
+            out.append(t[1])
+        elif t[0] == "seq":
+            out.extend(tree_linear(t[1]))
+        elif t[0] == "br":
+            for a in t[1]:
+                out.extend(tree_linear(a))
+        elif t[0] == "loop":
+            out.extend(tree_linear(t[1]))
+    return out
+
+
+def coq_prog(nodes):
+    items = []
+    for t in nodes:
+        if t[0] == "act":
+            e = t[1]
+            items.append("PAct (%s)" % ((COQ[e[0]] % e[1]) if "%s" in COQ[e[0]] else COQ[e[0]]))
+        elif t[0] == "seq":
+            items.append(coq_prog(t[1]))
+        elif t[0] == "br":
+            items.append("PBranch [%s]" % "; ".join(coq_prog(a) for a in t[1]))
+        elif t[0] == "loop":
+            items.append("PLoop (%s)" % coq_prog(t[1]))
+        elif t[0] == "exit":
+            items.append("PExit (%s)" % coq_prog(t[2]))
+        else:
+            die("coq_prog: node %r" % (t[0],))
+    if len(items) == 1:
+        return items[0]
+    return "PSeq [%s]" % "; ".join(items)
 
 
 def main(argv):
@@ -822,37 +1268,68 @@ def main(argv):
     suspicious = [x for x in IGNORED if x[2] in eff_names and (x[0], x[1], x[2]) not in IGNORE_OK]
     if suspicious:
         die("calls on untyped receivers that share a name with a locking function: %r" % suspicious)
+    # structured programs: control flow from the markers, early exits resolved, callees inlined
+    trees = {}
+    for key, fn in fntab.items():
+        if key in RET_GUARD_IMPL:
+            trees[key] = []
+            continue
+        raw = build_tree(fn.events, "%s::%s" % key)
+        trees[key] = simplify(attach_seq(raw, []))
+    tmemo = {}
+    prog = {k: inline_tree(k, trees, [], tmemo) for k in fntab if k not in RET_GUARD_IMPL}
+    for k in prog:
+        a = [(e[0], e[1]) for e in tree_linear(prog[k])]
+        b = [(e[0], e[1]) for e in flat[k]]
+        if a != b:
+            die("%s::%s: the structured program and the linear footprint disagree:\n %r\n %r" % (k[0], k[1], a, b))
     # synthesized: dropping a ProgressBar handle (field order of the struct), cloning one
     m = re.search(r"pub struct ProgressBar\s*\{([^}]*)\}", texts["progress_bar.rs"])
     fields = re.findall(r"(\w+)\s*:\s*([^,]+),", m.group(1))
     drop_ev = []
+    drop_tree = []      # each field: the Drop impl runs only if this handle held the last reference
     for fname, fty in fields:
         fty = re.sub(r"\s+", "", fty)
         if fty == "Arc<Mutex<BarState>>":
             drop_ev.append(("droparc", None, "progress_bar.rs: field " + fname))
             drop_ev.extend(flat[("BarState", "drop:drop")])
+            drop_tree.append(("act", drop_ev[0]))
+            drop_tree.append(("br", [[("seq", prog[("BarState", "drop:drop")])], []]))
         elif fty == "Arc<Mutex<Option<Ticker>>>":
             drop_ev.extend(flat[("Ticker", "drop:drop")])
+            drop_tree.append(("br", [[("seq", prog[("Ticker", "drop:drop")])], []]))
         elif fty == "Arc<AtomicPosition>":
             pass
         else:
             die("ProgressBar has a field of a type the translator does not know: %s: %s" % (fname, fty))
     # output
     table = []
+    programs = {}
     for (t, n), fn in sorted(fntab.items()):
         if (t, n) in RET_GUARD_IMPL:
             continue
         if t in ("ProgressBar", "MultiProgress") and fn.public:
             table.append(("%s::%s" % (t, n), flat[(t, n)], "%s:%d" % (fn.file, fn.line)))
+            programs["%s::%s" % (t, n)] = prog[(t, n)]
     table.append(("ProgressBar::drop", drop_ev, "progress_bar.rs: struct ProgressBar (drop glue, last handle)"))
+    programs["ProgressBar::drop"] = drop_tree
+    for nm in ("ProgressBar::clone", "MultiProgress::clone", "MultiProgress::drop"):
+        programs[nm] = []
     table.append(("ProgressBar::clone", [], "progress_bar.rs: #[derive(Clone)]"))
     table.append(("MultiProgress::clone", [], "multi.rs: #[derive(Clone)]"))
     table.append(("MultiProgress::drop", [], "multi.rs: no Drop impl on MultiProgress/MultiState"))
     for extra in [("BarState", "drop:drop"), ("Ticker", "drop:drop"), ("Ticker", "stop"), ("Ticker", "new"),
                   ("TickerControl", "run")]:
         table.append(("%s::%s" % extra, flat[extra], "%s:%d" % (fntab[extra].file, fntab[extra].line)))
+        programs["%s::%s" % extra] = prog[extra]
     for name, evs, _ in table:
-        check_balanced(name, evs)
+        try:
+            check_balanced(name, evs)
+        except XErr as e:
+            # the flat (path-insensitive) footprint of a method whose alternatives release different guards
+            # is not balanced; the structured program is what counts (prog_ordered); C08_footprints_ordered
+            # will reject the flat entry
+            sys.stderr.write("locks_extract.py: warning: %s\n" % e)
     lines = ["(* GENERATED by tools/locks_extract.py from %s/src - do not edit. *)" % "/repo",
              "From IndModel Require Import Base Locks.",
              "From Coq Require Import String.",
@@ -868,6 +1345,17 @@ def main(argv):
     lines.append("")
     lines.append("(** the loop body of TickerControl::run: the program of a ticker thread is a repetition of it *)")
     lines.append("Definition ticker_body : list caction := %s." % coq_list(flat[("TickerControl", "run")]))
+    lines.append("")
+    lines.append("(** the same methods as STRUCTURED programs: the control flow of the Rust bodies (if/else, match,")
+    lines.append("    if-let, closures of Option::map, loops; return/break/continue/`?` as [PExit clean-up] with the")
+    lines.append("    continuation cut), guards released where they die on each path, callees inlined. *)")
+    lines.append("Definition all_programs : list (string * cprog) := [")
+    for k, (name, evs, src) in enumerate(table):
+        lines.append('  ("%s", %s)%s' % (name, coq_prog(programs[name]), ";" if k + 1 < len(table) else ""))
+    lines.append("].")
+    lines.append("")
+    lines.append("(** the program of a ticker thread (TickerControl::run): a loop *)")
+    lines.append("Definition ticker_prog : cprog := %s." % coq_prog(programs["TickerControl::run"]))
     lines.append("")
     lines.append("(* lock / condvar / spawn / join call sites covered (file:line):")
     for f, l, txt in sites:
